@@ -670,6 +670,12 @@ def check_c08(tier):
     if groups:
         k0 = next(iter(groups))
         V.sample({"shape": json.loads(k0), "orders": [r[0] for r in groups[k0]][:6]})
+    # symbols through the real binary: every definition of the workspace's own files exactly once (fresh process per layout)
+    if not os.environ.get("VERIF_REPLAY"):
+        import binlayouts
+        nb, _ = binlayouts.run(V, tier, {"c08"})
+        replayed += nb
+        V.notes["lsp_sessions"] = nb
     # cycle reports: registration-order and run-to-run stability on the dependency-graph table
     import depgraphs
     cov2 = depgraphs.run(V, ["cycles"], semantics=False)
